@@ -1020,7 +1020,12 @@ pub fn run_hostile(ctx: &Ctx) {
         }
         let prefix_end = a.samples.len();
         // at least one second of quiet (no noise floor: the line's own noise setting applies to the transmission)
-        a.silence(1.0 + rng.unit() * 2.0, &mut rng);
+        let quiet = 1.0 + rng.unit() * 2.0;
+        a.silence(quiet, &mut rng);
+        // the clean transmission has its own level: much quieter or louder than the prefix in half of the cases
+        if i % 2 == 1 {
+            a.line.amplitude = (300.0f64.ln() + rng.unit() * (30000.0f64.ln() - 300.0f64.ln())).exp();
+        }
         let h = gen_header_any(&mut rng).text().into_bytes();
         for k in 0..3 {
             a.burst(16, &h, &mut rng);
@@ -1037,7 +1042,7 @@ pub fn run_hostile(ctx: &Ctx) {
         }
         a.silence(2.2, &mut rng);
         let cfg = if rng.chance(1, 2) { Cfg::Default } else { Cfg::Samedec };
-        let label = format!("{} cfg={:?} case={} prefix={}", lg.line.describe(), cfg, i, kinds.join("+")).replace(' ', ";");
+        let label = format!("{} cfg={:?} case={} txamp={:.0} prefix={}", lg.line.describe(), cfg, i, a.line.amplitude, kinds.join("+")).replace(' ', ";");
         let samples = a.samples.clone();
         if let Ok(only) = std::env::var("HOSTILE_ONLY") {
             if only != i.to_string() {
